@@ -152,7 +152,7 @@ func TestInproc(t *testing.T) {
 	k := 0
 	polluted := false // the transport's table is global: after a scenario that left a goroutine in it no other can be trusted
 	add := func(steps []string) {
-		if polluted {
+		if polluted || out.Stop() {
 			return
 		}
 		k++
